@@ -30,7 +30,7 @@ RULE = (
     "quadrant of est yaw, quadrant of gt yaw, |d| bucket)"
 )
 ASSUMPTIONS = ["roll and pitch <= 0.05 rad; for tilted boxes the yaw is convention dependent to second order, tolerance 2*tilt^2", "yaw-only boxes: weight tolerance 1e-9, error tolerance 1e-9"]
-DECIDING = ["TPMetricsAph.get_value.checked", "get_heading_error.checked", "C09.negative_yaw_ego_pairs", "C09.sign_checked", "C09.frame_checked", "C09.symmetry_checked", "C09.derived_checked", "C09.result_object_checked"]
+DECIDING = ["TPMetricsAph.get_value.checked", "get_heading_error.checked", "C09.negative_yaw_ego_pairs", "C09.sign_checked", "C09.frame_checked", "C09.symmetry_checked", "C09.derived_checked", "C09.result_object_checked", "C09.label_policy_checked"]
 JOBS = {"quick": 2, "thorough": 14}
 
 
@@ -148,9 +148,14 @@ def one(ctx: Ctx, workload: str, idx: int, ye: float, yg: float, ego_yaws, roll:
         ctx.check(close(weight(e, g), base, tol, 0), "C09/aph_weight_depends_on_quaternion_sign", dict(est_yaw=ye, gt_yaw=yg, neg=(ne, ng), a=base, b=weight(e, g)), "TPMetricsAph.get_value")
         he = e.get_heading_error(g)
         ctx.check(close(abs(he[2]), d, tol, 0), "C09/yaw_error_depends_on_quaternion_sign", dict(est_yaw=ye, gt_yaw=yg, neg=(ne, ng), err=he[2], d=d), "get_heading_error")
+    # the weight depends on the orientations only: a TP whose estimate carries another label (allowed by the pair's
+    # matching policy) gets the same weight as the same-label pair
+    for lab, policy in (("unknown", MatchingLabelPolicy.ALLOW_UNKNOWN), ("bus", MatchingLabelPolicy.ALLOW_ANY), ("unknown", MatchingLabelPolicy.ALLOW_ANY)):
+        e_l = O.obj3d(3.0, 1.0, 0.0, ye, lab=lab, roll=roll, pitch=pitch)
+        w_l = APH.get_value(DynamicObjectWithPerceptionResult(e_l, g0, policy))
+        ctx.count("C09.label_policy_checked")
+        ctx.check(close(w_l, base, tol, 0), "C09/aph_weight_depends_on_labels_of_a_compatible_pair", dict(est_yaw=ye, gt_yaw=yg, est_label=lab, policy=str(policy.value), same_label=base, other_label=w_l), "TPMetricsAph.get_value")
     # the error a result object reports is that of its own pair (estimate against its ground truth)
-    from perception_eval.evaluation.result.object_result import DynamicObjectWithPerceptionResult
-
     rep = DynamicObjectWithPerceptionResult(e0, g0).heading_error
     own = e0.get_heading_error(g0)
     ctx.count("C09.result_object_checked")
